@@ -65,6 +65,12 @@ var (
 	seq      int64
 	dead     bool
 
+	// tasks blocked in a REAL blocking operation (see realBlock)
+	blockedReal  [MaxTasks]bool
+	nBlockedReal int
+	goids        [MaxTasks]uint64
+	realDeadlock bool
+
 	steps    int64
 	stepBase int64 // steps at the last Progress() call: the cap is per operation
 	switches int64
@@ -161,6 +167,12 @@ func Reset(seed uint64, explicitTape []uint64) {
 	now = 0
 	seq = 0
 	dead = false
+	for i := 0; i < MaxTasks; i++ {
+		blockedReal[i] = false
+		goids[i] = 0
+	}
+	nBlockedReal = 0
+	realDeadlock = false
 	steps = 0
 	stepBase = 0
 	switches = 0
@@ -271,8 +283,183 @@ func ForceRunToBlock() { forceRTB = true }
 //
 //go:norace
 func TaskEnter(id int) {
-	for current != id {
+	goids[id] = goid()
+	waitTurn(id)
+}
+
+// ---- real blocking ---------------------------------------------------------
+//
+// The scheduler knows two ways a task waits: the library locks the
+// instrumenter rewrote (Acquire) and the harness's own PauseOn. Anything else
+// that blocks for real - sync.Once.Do while another task is parked inside the
+// function, a WaitGroup, a channel, a mutex taken in a form the instrumenter
+// does not recognise - would leave the blocked goroutine "current" for ever
+// while the task that could release it spins waiting for its turn.
+//
+// Detection: the process has one P and every task but the current one spins
+// through runtime.Gosched() in waitTurn. A runnable goroutine gets the P
+// within one round of the run queue; a current task that makes no step while
+// a parked task goes through blockSpins rounds is therefore not runnable: it
+// is blocked outside the simulator. It is then marked blockedReal and another
+// task is chosen (a tape draw - everything else is frozen at that moment, so
+// the position of the draw is a function of the seed). When the operation
+// returns, the goroutine runs to its next scheduler entry point, recognises
+// itself by goroutine id, and parks like any other task. Every scheduling
+// decision made while such a task exists first "settles": it lets the Go
+// scheduler run a few rounds so that a task whose resource has been released
+// arrives before the choice is made, not at a moment the Go scheduler picks.
+
+const (
+	blockSpins   = 3000
+	settleRounds = 6
+)
+
+var cRealBlock = RegisterCounter("task_blocked_outside_the_simulator")
+
+// goid returns the id of the calling goroutine (slow: parses the stack
+// header; used when a task starts and while a blockedReal task exists).
+//
+//go:norace
+func goid() uint64 {
+	var buf [64]byte
+	n := runtime.Stack(buf[:], false)
+	// "goroutine 123 ["
+	var id uint64
+	for i := len("goroutine "); i < n && buf[i] >= '0' && buf[i] <= '9'; i++ {
+		id = id*10 + uint64(buf[i]-'0')
+	}
+	return id
+}
+
+// waitTurn parks the calling task until it is current.
+//
+//go:norace
+func waitTurn(me int) {
+	spins := 0
+	lastSteps, lastCur := steps, current
+	for current != me {
 		runtime.Gosched()
+		if steps != lastSteps || current != lastCur {
+			lastSteps, lastCur, spins = steps, current, 0
+			continue
+		}
+		spins++
+		if spins >= blockSpins {
+			spins = 0
+			realBlock()
+		}
+	}
+}
+
+// realBlock is called by a parked task that saw no progress: the current
+// task is blocked outside the simulator.
+//
+//go:norace
+func realBlock() {
+	b := current
+	if !active || b < 0 || b >= ntasks || blockedReal[b] || state[b] != tRunnable {
+		return
+	}
+	blockedReal[b] = true
+	nBlockedReal++
+	count(cRealBlock)
+	next := pickAny(b)
+	if next < 0 {
+		// nobody can run and nobody can release b: a real deadlock. Tasks that
+		// wait inside the simulator are released to unwind; b is abandoned.
+		realDeadlock = true
+		dead = true
+		for i := 0; i < ntasks; i++ {
+			idle[i] = false
+		}
+		next = pickAny(b)
+		if next < 0 {
+			active = false
+			current = -1
+			return
+		}
+	}
+	switches++
+	current = next
+}
+
+// settle lets tasks whose real blocking operation has returned arrive.
+//
+//go:norace
+func settle() {
+	if nBlockedReal == 0 {
+		return
+	}
+	saved := current
+	current = -2 // nobody: whoever arrives parks
+	for r := 0; r < settleRounds; r++ {
+		before := nBlockedReal
+		runtime.Gosched()
+		if nBlockedReal != before {
+			r = -1
+		}
+	}
+	current = saved
+}
+
+// arrive is called at every scheduler entry point while a blockedReal task
+// exists: if the caller is such a task, its blocking operation has returned
+// and it parks until it is scheduled.
+//
+//go:norace
+func arrive() {
+	g := goid()
+	for i := 0; i < ntasks; i++ {
+		if blockedReal[i] && goids[i] == g {
+			blockedReal[i] = false
+			nBlockedReal--
+			waitTurn(i)
+			return
+		}
+	}
+}
+
+// RealDeadlock reports whether the run ended with a task blocked outside the
+// simulator that nothing can release (its goroutine is abandoned).
+//
+//go:norace
+func RealDeadlock() bool { return realDeadlock }
+
+// BlockedRealTask returns the id of a task that is still blocked outside
+// the simulator (-1 if none).
+//
+//go:norace
+func BlockedRealTask() int {
+	for i := 0; i < ntasks; i++ {
+		if blockedReal[i] {
+			return i
+		}
+	}
+	return -1
+}
+
+// GoID returns the goroutine id recorded for a task.
+//
+//go:norace
+func GoID(task int) uint64 { return goids[task] }
+
+// WaitEnd parks the main goroutine until the run is over.
+//
+//go:norace
+func WaitEnd() {
+	spins := 0
+	lastSteps, lastCur := steps, current
+	for active {
+		runtime.Gosched()
+		if steps != lastSteps || current != lastCur {
+			lastSteps, lastCur, spins = steps, current, 0
+			continue
+		}
+		spins++
+		if spins >= blockSpins {
+			spins = 0
+			realBlock()
+		}
 	}
 }
 
@@ -284,6 +471,9 @@ func TaskExit(id int) {
 	idle[id] = false
 	clearIdleAll()
 	next := pickAny(id)
+	if next < 0 && nBlockedReal > 0 {
+		realDeadlock = true
+	}
 	if next < 0 {
 		// nobody is eligible: either everybody is done, or the remaining
 		// tasks wait for something that can no longer happen (deadlock):
@@ -323,7 +513,7 @@ func clearIdleAll() {
 //
 //go:norace
 func eligible(i int) bool {
-	if state[i] != tRunnable {
+	if state[i] != tRunnable || blockedReal[i] {
 		return false
 	}
 	if idle[i] {
@@ -347,6 +537,7 @@ func pickAny(me int) int { return pickAnyD(me, 0) }
 //
 //go:norace
 func pickAnyD(me int, selfDeadline int64) int {
+	settle()
 	for {
 		var cand [MaxTasks]int
 		n := 0
@@ -424,9 +615,7 @@ func recordPair(a, b int32) {
 func switchTo(me, next int) {
 	switches++
 	current = next
-	for current != me {
-		runtime.Gosched()
-	}
+	waitTurn(me)
 }
 
 // Yield is the preemption point inserted before every statement of the
@@ -436,6 +625,10 @@ func switchTo(me, next int) {
 func Yield(site int) {
 	if !active {
 		return
+	}
+	if nBlockedReal > 0 {
+		arrive()
+		settle()
 	}
 	me := current
 	steps++
@@ -507,6 +700,10 @@ func Seam(code int) {
 	if !active {
 		return
 	}
+	if nBlockedReal > 0 {
+		arrive()
+		settle()
+	}
 	me := current
 	steps++
 	if steps-stepBase > stepCap {
@@ -550,6 +747,10 @@ func Seam(code int) {
 func PauseOn(key int32, deadline int64) bool {
 	if !active || dead {
 		return false
+	}
+	if nBlockedReal > 0 {
+		arrive()
+		settle()
 	}
 	me := current
 	steps++
